@@ -162,6 +162,31 @@ class ReqC07Part(Part):
         hs = []
         for i in range(nh):
             h = ["coins " + "".join(rng.choice("01") for _ in range(600))]
+            if i % 7 == 3:
+                # query -> merge that triggers no compaction -> query again, with no update in between (the queries cache the sorted
+                # view inside the sketch; every state change must drop it): small sketches, queries after every step
+                hra = rng.randrange(2)
+                k = rng.choice([4, 6, 12, 20])
+                ids = list(range(rng.choice([2, 3, 4])))
+                tr = {}
+                for s_ in ids:
+                    h.append("new %d %d %d" % (s_, k, hra))
+                    tr[s_] = [rng.randrange(-50, 200) for _ in range(rng.choice([1, 2, 3, 5, 8]))]
+                    for x in tr[s_]:
+                        h.append("upd %d %d" % (s_, x))
+                h += self.queries(rng, 0, tr[0])
+                for s_ in ids[1:]:
+                    h.append("%s 0 %d" % (rng.choice(["merge", "mergemv"]), s_))
+                    tr[0] = tr[0] + tr[s_]
+                    h += self.queries(rng, 0, tr[0])
+                    h.append("quant 0 %s 1" % f64hex(1.0))
+                    h.append("quant 0 %s 0" % f64hex(0.0))
+                x = rng.randrange(-50, 200)
+                h.append("upd 0 %d" % x)
+                tr[0].append(x)
+                h += self.queries(rng, 0, tr[0])
+                hs.append(h)
+                continue
             nsk = rng.choice([1, 2, 3, 4])
             hra_all = rng.randrange(2)
             ks = [4, 4, 6, 8, 10, 12] if tier == "quick" else [4, 5, 6, 8, 12, 16, 20, 50, 300]
